@@ -7,5 +7,5 @@ CONSTANTS
   CountVals = {0, 1, 2}
   Modes = {"explicit"}
   SimPick = 0
-INVARIANTS BucketsMatch BucketsMatchNoScaleDown TotalPreserved WellFormed EmitDone
+INVARIANTS BucketsMatch TotalPreserved WellFormed EmitDone
 CHECK_DEADLOCK FALSE
